@@ -17,6 +17,7 @@ ASSUMPTIONS = [
     "the SK == 0 retry branch is exercised by injecting a zero first output, not by search",
 ]
 ENGINE = "hypothesis"
+TECHNIQUE = ("property-based testing (Hypothesis) against an independent RFC 5869 / draft-04 model (and OpenSSL), fault injection for the SK = 0 retry")
 REQUIRED_LABELS = {"quick": ["expand:last_block", "expand:L=8160", "keygen:info_nonempty",
                              "keygen:retry_injected"],
                    "thorough": ["expand:last_block", "expand:L=8160", "keygen:info_nonempty",
